@@ -11,6 +11,11 @@ NA = {
 }
 
 CHECKS = {
+    'C16': dict(
+        category='other', design_ref='DESIGN.md §5 C16',
+        technique='table rule (registration name -> function -> chrono accessor chain with receiver provenance), API rules for comparison and checked arithmetic',
+        text='Decides: each accessor name is registered to a function returning exactly the documented chrono field accessor applied to the receiver at its own offset; equality/ordering call DateTime\'s instant-based eq/cmp; timestamp +/- duration are checked with None -> error; timestamp()/string() are RFC 3339 parse/print of the whole value. Calendar correctness and RFC 3339 round trips are chrono\'s and not decided.',
+        note='chrono semantics trusted'),
     'C15': dict(
         category='other', design_ref='DESIGN.md §5 C15',
         technique='use/def rule on the parser remainder, API deny/require rules (nom float recognisers, chrono panicking operators), cast rules with interval analysis, unit table by constant propagation',
